@@ -948,4 +948,149 @@ theorem mem_staleTxs (g : WaitGraph) (now ttl tx : Nat) :
   · rintro ⟨s, h1, h2⟩
     exact ⟨(tx, s), ⟨h1, h2⟩, rfl⟩
 
+/-! ### a refused prepare records a wait edge to every blocker -/
+
+theorem addWait_mx (g : WaitGraph) (now w h : Nat) (p : Option Nat) :
+    (addWait g now w h p).maxEdgesPerTx = g.maxEdgesPerTx := by
+  unfold addWait
+  split
+  · rfl
+  · split
+    · split <;> rfl
+    · rfl
+
+theorem removeTransaction_mx (g : WaitGraph) (tx : Nat) :
+    (removeTransaction g tx).maxEdgesPerTx = g.maxEdgesPerTx := by
+  rw [removeTransaction_eq]
+
+theorem foldl_removeTransaction_mx (txs : List Nat) (g : WaitGraph) :
+    (txs.foldl removeTransaction g).maxEdgesPerTx = g.maxEdgesPerTx := by
+  induction txs generalizing g with
+  | nil => rfl
+  | cons a r ih => simp only [List.foldl_cons, ih, removeTransaction_mx]
+
+theorem foldl_addWait_mx (bs : List Nat) (g : WaitGraph) (now w : Nat) (p : Option Nat) :
+    (bs.foldl (fun g b => addWait g now w b p) g).maxEdgesPerTx = g.maxEdgesPerTx := by
+  induction bs generalizing g with
+  | nil => rfl
+  | cons a r ih => simp only [List.foldl_cons, ih, addWait_mx]
+
+theorem mem_outs_foldl_addWait (bs : List Nat) (g : WaitGraph) (now w : Nat) (p : Option Nat)
+    (hmx : g.maxEdgesPerTx = 0) (a b : Nat) :
+    b ∈ outs (bs.foldl (fun g b => addWait g now w b p) g) a ↔ b ∈ outs g a ∨ (a = w ∧ b ∈ bs ∧ w ≠ b) := by
+  induction bs generalizing g with
+  | nil => simp
+  | cons x r ih =>
+    simp only [List.foldl_cons]
+    rw [ih _ (by rw [addWait_mx]; exact hmx), mem_outs_addWait]
+    simp only [hmx, Nat.lt_irrefl, false_and, not_false_eq_true, and_true, List.mem_cons, gt_iff_lt]
+    constructor
+    · rintro ((h | ⟨h1, h2, h3⟩) | ⟨h1, h2, h3⟩)
+      · exact Or.inl h
+      · exact Or.inr ⟨h1, Or.inl h2, h2 ▸ h3⟩
+      · exact Or.inr ⟨h1, Or.inr h2, h3⟩
+    · rintro (h | ⟨h1, h2 | h2, h3⟩)
+      · exact Or.inl (Or.inl h)
+      · exact Or.inl (Or.inr ⟨h1, h2, h2 ▸ h3⟩)
+      · exact Or.inr ⟨h1, h2, h3⟩
+
+theorem mem_conflicts (locks : List (Nat × KeyLock)) (now tx : Nat) (keys : List Nat) (k b : Nat) :
+    (k, b) ∈ conflicts locks now tx keys ↔
+      k ∈ keys ∧ ∃ l, aGet locks k = some l ∧ l.isExpired now = false ∧ l.tx ≠ tx ∧ l.tx = b := by
+  induction keys with
+  | nil => simp [conflicts]
+  | cons x r ih =>
+    simp only [conflicts, List.mem_cons]
+    cases hg : aGet locks x with
+    | none =>
+      simp only [ih]
+      constructor
+      · rintro ⟨h1, h2⟩; exact ⟨Or.inr h1, h2⟩
+      · rintro ⟨h1 | h1, l, h2, h3⟩
+        · subst h1; rw [hg] at h2; cases h2
+        · exact ⟨h1, l, h2, h3⟩
+    | some l0 =>
+      by_cases hc : (!l0.isExpired now && l0.tx != tx) = true
+      · simp only [hc, ↓reduceIte, List.mem_cons, Prod.mk.injEq, ih]
+        simp only [Bool.and_eq_true, Bool.not_eq_eq_eq_not, Bool.not_true, bne_iff_ne, ne_eq] at hc
+        constructor
+        · rintro (⟨h1, h2⟩ | ⟨h1, h2⟩)
+          · subst h1; exact ⟨Or.inl rfl, l0, hg, hc.1, hc.2, h2.symm⟩
+          · exact ⟨Or.inr h1, h2⟩
+        · rintro ⟨h1 | h1, l, h2, h3, h4, h5⟩
+          · subst h1; rw [hg] at h2; simp only [Option.some.injEq] at h2; subst h2
+            exact Or.inl ⟨rfl, h5.symm⟩
+          · exact Or.inr ⟨h1, l, h2, h3, h4, h5⟩
+      · simp only [hc, Bool.false_eq_true, ↓reduceIte, ih]
+        simp only [Bool.and_eq_true, Bool.not_eq_eq_eq_not, Bool.not_true, bne_iff_ne, ne_eq, not_and, Decidable.not_not] at hc
+        constructor
+        · rintro ⟨h1, h2⟩; exact ⟨Or.inr h1, h2⟩
+        · rintro ⟨h1 | h1, l, h2, h3, h4, h5⟩
+          · subst h1; rw [hg] at h2; simp only [Option.some.injEq] at h2; subst h2
+            exact absurd (hc h3) h4
+          · exact ⟨h1, l, h2, h3, h4, h5⟩
+
+/-! ### the coordinator's graph never has a per-transaction edge limit -/
+
+theorem removeWait_mx (g : WaitGraph) (w h : Nat) : (removeWait g w h).maxEdgesPerTx = g.maxEdgesPerTx := by
+  rw [removeWait_eq]
+  have h1 : (rwFwd g w h).maxEdgesPerTx = g.maxEdgesPerTx := by
+    unfold rwFwd
+    cases aGet g.edges w with
+    | none => rfl
+    | some hs => by_cases e : (hs.filter (· != h)).isEmpty <;> simp [e]
+  have h2 : ∀ g1 : WaitGraph, (rwRev g1 w h).maxEdgesPerTx = g1.maxEdgesPerTx := by
+    intro g1
+    unfold rwRev
+    cases aGet g1.reverse h with
+    | none => rfl
+    | some ws => by_cases e : (ws.filter (· != w)).isEmpty <;> simp [e]
+  rw [h2, h1]
+
+theorem tryLockWait_mx (t : LockTable) (g : WaitGraph) (now wnow tx : Nat) (keys : List Nat) (prio : Option Nat) :
+    (tryLockWait t g now wnow tx keys prio).2.1.maxEdgesPerTx = g.maxEdgesPerTx := by
+  unfold tryLockWait
+  simp only
+  split
+  · exact removeTransaction_mx g tx
+  · exact foldl_addWait_mx _ g wnow tx prio
+
+theorem cstep_mx (s : CSys) (op : COp) (h : s.g.maxEdgesPerTx = 0) : (cstep s op).g.maxEdgesPerTx = 0 := by
+  cases op with
+  | lockW tx keys prio => simp only [cstep, tryLockWait_mx]; exact h
+  | relHW x =>
+    obtain ⟨L, hL⟩ := releaseByHandleWait_graph s.t s.g x
+    simp only [cstep, hL, foldl_removeTransaction_mx]; exact h
+  | cleanW => simp only [cstep, cleanupExpiredWait, foldl_removeTransaction_mx]; exact h
+  | lock tx keys => exact h
+  | rel tx => exact h
+  | relH x => exact h
+  | clean => exact h
+  | gAdd w x prio => simp only [cstep, addWait_mx]; exact h
+  | gRm tx => simp only [cstep, removeTransaction_mx]; exact h
+  | gRmW w x => simp only [cstep, removeWait_mx]; exact h
+  | endTx tx hs =>
+    obtain ⟨L, hL⟩ := releaseHandles_graph hs s.t s.g
+    simp only [cstep, endTx, hL, removeTransaction_mx, foldl_removeTransaction_mx]; exact h
+  | endTxOld tx hs =>
+    obtain ⟨L, hL⟩ := releaseHandles_graph hs s.t s.g
+    simp only [cstep, endTxOld, hL, foldl_removeTransaction_mx]; exact h
+  | advance d => exact h
+  | serializeRestore => exact h
+  | sweep active ps => simp only [cstep, orphanSweep, foldl_removeTransaction_mx]; exact h
+  | gClear => simp only [cstep, clearGraph, WaitGraph.empty]; exact h
+  | gNew => rfl
+  | gStale ttl => simp only [cstep, cleanupStaleEdges, foldl_removeTransaction_mx]; exact h
+
+theorem crun_mx (cops : List COp) (s : CSys) (h : s.g.maxEdgesPerTx = 0) : (crun cops s).g.maxEdgesPerTx = 0 := by
+  induction cops generalizing s with
+  | nil => exact h
+  | cons op r ih => exact ih _ (cstep_mx s op h)
+
+theorem corun_mx (T mc : Nat) (ops : List CoOp) : (corun ops (Coord.init T mc)).g.maxEdgesPerTx = 0 := by
+  obtain ⟨cops, h⟩ := corun_pair ops (Coord.init T mc)
+  have : (corun ops (Coord.init T mc)).g = (corun ops (Coord.init T mc)).pair.g := rfl
+  rw [this, h]
+  exact crun_mx cops _ rfl
+
 end Neumann.Locks
